@@ -19,7 +19,8 @@ RULE = (
     "via factorize_large_inputs_in_chunks=False, chunk-wise with 1..6 chunks, fully monotonic, partially monotonic, "
     "pre-chunked Arrow keys} x {contiguous, Arrow-chunked values with boundaries misaligned with the key chunks} x "
     "{gather permutation of the thread-pool futures} x {execution permutation of the tasks}; thresholds are scaled "
-    "down from the harness.  A second sub-check drives numba.group_*(n_threads=) through the real thread pool under "
+    "down from the harness.  `config_enum` enumerates all float key x value sequences of length <= 4 (quick) / 5 over "
+    "{2,1,NaN} x {NaN,-1.5,2} on the chunk-wise route (2-3 chunks, 1-2 threads, 7 reductions) against the model.  A further sub-check drives numba.group_*(n_threads=) through the real thread pool under "
     "generated schedules; a real-scale sub-check uses n in {999_999, 1_000_000, 1_000_001, 2M+-1, 3M, 4M+1} with "
     "structured keys and no shims against a NumPy ufunc.at reference.  Non-trivial = B really took another route "
     "(chunked key representation observed, or > 1 thread-pool task observed) AND some live group is absent from at "
@@ -217,6 +218,67 @@ def check(case, ctx):
 
 
 # ---------------------------------------------------------------------------
+# exhaustive: every short key x value sequence on the chunk-wise route vs the reference model
+def config_enum(tier, variant, replica, nreplicas):
+    import itertools
+
+    lmax = 4 if tier == "quick" else 5
+    i = 0
+    for L in range(1, lmax + 1):
+        for kv in itertools.product([2.0, 1.0, None], repeat=L):
+            for vv in itertools.product([None, -1.5, 2.0], repeat=L):
+                i += 1
+                if i % nreplicas != replica:
+                    continue
+                yield {"n": L, "keys": [{"t": "float", "vals": list(kv), "name": None}], "vals": [{"dtype": "float64", "vals": list(vv), "name": None}],
+                       "mask": None, "sort": True}
+
+
+def config_enum_check(case, ctx):
+    n = case["n"]
+    keys = data.render_key(case["keys"][0], "np")
+    vals = data.render_val(case["vals"][0], "np")
+    _, _, groups = gbops.model_groups(case)
+    labels = gbops.labels_of(case)
+    for kchunks in ((2, 3) if n >= 2 else (1,)):
+        for threads in (1, 2):
+            with gbops.Shims(threshold=1, key_chunks=kchunks, threads=threads):
+                gb = GroupBy(keys)
+                chunked = gb.key_is_chunked
+                for op in ("min", "max", "first", "last", "sum", "count", "mean"):
+                    ctx.evaluations += 1
+                    ctx.per_sub["config_enum"] += 1
+                    blocks = np.array_split(np.arange(n), kchunks)
+                    live = {l for l in labels if l is not None}
+                    if chunked and len(live) >= 2 and any(live - {labels[p] for p in b if labels[p] is not None} for b in blocks):
+                        ctx.nontrivial_constructed += 1
+                    try:
+                        res = getattr(gb, op)(vals)
+                        gbops.compare_reduction(case, op, case["vals"][0], res, groups, what=f"enum:{op}")
+                    except Exception as e:  # noqa
+                        from ..core import classify_exception
+
+                        ctx.report("config_enum", dict(case, op=op, key_chunks=kchunks, threads=threads), classify_exception(e))
+    if len(ctx.samples) < ctx.sample_cap and n >= 3 and ctx.evaluations % 503 == 0:
+        ctx.samples.append({"sub": "config_enum", "case": case})
+    lmax = 4 if ctx.tier == "quick" else 5
+    txt = f"GroupBy on the chunk-wise route: all keys over {{2,1,NaN}} x values over {{NaN,-1.5,2}} of length <= {lmax} x 2-3 chunks x 1-2 threads x 7 reductions"
+    if txt not in ctx.exhaustive:
+        ctx.exhaustive.append(txt)
+
+
+def config_enum_micro(case, ctx):
+    if "op" not in case:
+        return config_enum_check(case, ctx)
+    keys = data.render_key(case["keys"][0], "np")
+    vals = data.render_val(case["vals"][0], "np")
+    _, _, groups = gbops.model_groups(case)
+    with gbops.Shims(threshold=1, key_chunks=case["key_chunks"], threads=case["threads"]):
+        res = getattr(GroupBy(keys), case["op"])(vals)
+    gbops.compare_reduction(case, case["op"], case["vals"][0], res, groups, what=f"enum:{case['op']}")
+
+
+# ---------------------------------------------------------------------------
 # array-level kernels through the real thread pool under generated schedules
 @st.composite
 def kernel_case(draw, variant):
@@ -384,6 +446,7 @@ def real_check(case, ctx):
 SUBS = [
     Sub("config", check, strategy=lambda tier, v: case_strategy(v), variants=tuple(VARIANTS), examples=(4500, 90000),
         replicas=(4, 10), cost={"f": 300, "i": 300, "t": 300}),
+    Sub("config_enum", config_enum_micro, enumerate=config_enum, variants=("-",), replicas=(8, 16), cost={"-": 480}),
     Sub("kernel_threads", kernel_check, strategy=lambda tier, v: kernel_case(v), variants=("-",), examples=(1500, 30000),
         replicas=(2, 4), cost={"-": 120}),
     Sub("realscale", real_check, strategy=lambda tier, v: real_case(v), variants=("all",), examples=(36, 400),
